@@ -79,6 +79,8 @@ def coq_event(e) -> str:
 
 
 def coq_outcome(o: str) -> str:
+    if o == 'Runaway':
+        return 'NoFuel'
     return 'Done' if o == 'Done' else f'(Raised {o})'
 
 
